@@ -394,6 +394,7 @@ pub fn ref_tables(
 pub fn e2_sig(e: &E2) -> String {
     let cps = match &e.cps {
         Cps::None => "none",
+        Cps::Empty { .. } => "explicit-empty",
         Cps::Set { bias_kind: 0, .. } => "plain",
         Cps::Set { bias_kind: 1, .. } => "u16bias",
         Cps::Set { .. } => "u24bias",
@@ -643,6 +644,7 @@ fn body(run: &Run, replay: Option<&Value>) {
     extra::spaces_templates(&ctx, &base);
     extra::spaces_malformed(&ctx, &base);
     extra::spaces_axes(&ctx, &base);
+    extra::spaces_explicit_empty(&ctx, &base);
     if run.tier == Tier::Thorough {
         spaces_f2_three_large(&ctx, &base);
     }
